@@ -95,12 +95,12 @@ variable (nested : Nested) (sem : Sem) (gi : Nat) (span : Span) (es : List Edge)
 variable (hs : SemL2 F c sem true)
 include hs
 
-theorem step_S0 (k : Nat) (hprog : Val.pyEq (xs F x0 0) (xs F x0 1) = false) :
+theorem step_S0 (k : Nat) (hprog : Val.changed (xs F x0 0) (xs F x0 1) = true) :
     stepSync nested sem gi (L2 true es sp) span k (S0 x0) [b1] (S0 x0) [] =
       .ok (P F x0 0) (bLog gi span k x0) := by
   have hb := hs.hb
   simp only [b1, mkNode] at hb
-  have h' : Val.pyEq x0 (F x0) = false := by simpa [xs] using hprog
+  have h' : Val.changed x0 (F x0) = true := by simpa [xs] using hprog
   simp_all [stepSync, collectInputs, resolveInput, valueSource, execNode, execFn, toParams, b1, mkNode,
       L2, S0, P, exb, recordExec, GState.applyOutputs, GState.updateValue, GState.bumps, routeEvent,
       NodeD.isGate, bLog, AL.get?, AL.put, AL.merge, wrapOutputs, GState.ver, xs, nodeSpanOf]
@@ -123,12 +123,12 @@ theorem step_P (k m : Nat) :
       L2, Pc, P, Q, exb, exg, recordExec, GState.applyOutputs, routeEvent, NodeD.isGate, gLog, AL.get?, AL.put,
       GState.ver, Target.toDec, hg, h, xs, nodeSpanOf]
 
-theorem step_Q (k m : Nat) (hprog : Val.pyEq (xs F x0 (m + 1)) (xs F x0 (m + 2)) = false) :
+theorem step_Q (k m : Nat) (hprog : Val.changed (xs F x0 (m + 1)) (xs F x0 (m + 2)) = true) :
     stepSync nested sem gi (L2 true es sp) span k (Q F x0 (.one "b1") m) [b1] (Q F x0 (.one "b1") m) [] =
       .ok (P F x0 (m + 1)) (bLog gi span k (xs F x0 (m + 1))) := by
   have hb := hs.hb
   simp only [b1, mkNode] at hb
-  have h' : Val.pyEq (xs F x0 (m + 1)) (F (xs F x0 (m + 1))) = false := by
+  have h' : Val.changed (xs F x0 (m + 1)) (F (xs F x0 (m + 1))) = true := by
     simpa [show m + 2 = (m + 1) + 1 from rfl, xs] using hprog
   simp_all [stepSync, collectInputs, resolveInput, valueSource, execNode, execFn, toParams, b1, mkNode,
       L2, P, Q, exb, exg, recordExec, GState.applyOutputs, GState.updateValue, GState.bumps, routeEvent,
@@ -137,7 +137,7 @@ theorem step_Q (k m : Nat) (hprog : Val.pyEq (xs F x0 (m + 1)) (xs F x0 (m + 2))
 abbrev stepFn : Nat → GState → List NodeD → StepOut :=
   fun k s rs => stepSync nested sem gi (L2 true es sp) span k s rs s []
 
-theorem loop_S0_succ (mi f k : Nat) (log : List Log) (hprog : Val.pyEq (xs F x0 0) (xs F x0 1) = false) :
+theorem loop_S0_succ (mi f k : Nat) (log : List Log) (hprog : Val.changed (xs F x0 0) (xs F x0 1) = true) :
     runLoop (stepFn nested sem gi span es sp) (L2 true es sp) .none mi (f + 1) k (S0 x0) log =
       runLoop (stepFn nested sem gi span es sp) (L2 true es sp) .none mi f (k + 1)
         (P F x0 0) (log ++ bLog gi span k x0) := by
@@ -152,7 +152,7 @@ theorem loop_P_succ (mi f k m : Nat) (log : List Log) :
   rw [runLoop_succ_cons _ _ _ _ _ _ _ _ (by rw [ready_P]; simp)]
   simp only [ready_P, stepFn, step_P F c x0 nested sem gi span es sp hs]
 
-theorem loop_Q_succ (mi f k m : Nat) (log : List Log) (hprog : Val.pyEq (xs F x0 (m + 1)) (xs F x0 (m + 2)) = false) :
+theorem loop_Q_succ (mi f k m : Nat) (log : List Log) (hprog : Val.changed (xs F x0 (m + 1)) (xs F x0 (m + 2)) = true) :
     runLoop (stepFn nested sem gi span es sp) (L2 true es sp) .none mi (f + 1) k (Q F x0 (.one "b1") m) log =
       runLoop (stepFn nested sem gi span es sp) (L2 true es sp) .none mi f (k + 1)
         (P F x0 (m + 1)) (log ++ bLog gi span k (xs F x0 (m + 1))) := by
@@ -208,7 +208,7 @@ include hs
 /-- from `P m` (`m+1` body executions done) with `d = n' - m` to go: exactly `2*d+1` supersteps -/
 theorem loop_from (mi n' : Nat)
     (hc : ∀ j, j < n' → c (xs F x0 (j + 1)) = true) (hn : c (xs F x0 (n' + 1)) = false)
-    (hprog : ∀ j, j < n' → Val.pyEq (xs F x0 (j + 1)) (xs F x0 (j + 2)) = false) :
+    (hprog : ∀ j, j < n' → Val.changed (xs F x0 (j + 1)) (xs F x0 (j + 2)) = true) :
     ∀ (d m fuel k : Nat) (log : List Log), m + d = n' →
       (2 * d + 1 ≤ fuel → ∃ lg,
         runLoop (stepFn nested sem gi span es sp) (L2 true es sp) .none mi fuel k (P F x0 m) log =
